@@ -1352,14 +1352,18 @@ def oracle(stream, line, out):
         return None
     w = line.split(" ")
     if stream == "src":
+        if out.startswith("exc LarkError"):
+            return None             # acceptance of sentences is C10's subject (and shrinking produces non-sentences)
         if not out.startswith("ok"):
-            return False            # generated sentences parse, and as_dict returns
+            return False            # as_dict returns on every parsed profile
         try:
             want = walk_source(unhx(w[1]))
         except NotApplicable:
             return None
         return out == show_dict(want)
     if stream == "both":
+        if out.startswith("exc LarkError"):
+            return None
         if not out.startswith("tree=T text=T dict=T | ok"):
             return False
         try:
